@@ -467,6 +467,11 @@ def bounded_chunk(arg):
                 ok = bool(numpy.isnan(r)) if isnan else (same_bits(r, x, t) or (negzero and same_bits(r, t(0), t)))
                 if not ok:
                     fail("mpf2float", bits, got=repr(r), want=repr(x))
+                # flushing only touches subnormals: a normal float comes back unchanged with flush_subnormals=True as well
+                if fin and abs(x) >= numpy.finfo(t).smallest_normal:
+                    rf = U.mpf2float(t, m, flush_subnormals=True)
+                    if not same_bits(rf, x, t):
+                        fail("mpf2float", bits, got=repr(rf), want=repr(x), flush_subnormals=True)
                 if fin and x != 0:
                     e = U.mpf2expansion(t, m)
                     back = U.expansion2mpf(ctx, e)
